@@ -14,6 +14,11 @@ PCT_PROFILE = {"objs": {"atomic": (1, 2), "mutex": (0, 2)},
                "min_tasks": 1, "extra_tasks": 3, "min_ops": 2, "extra_ops": 5}
 
 
+MANY_TASKS = {"objs": {"atomic": (1, 1), "mutex": (0, 1)},
+              "weights": {"atomic": 3, "yield": 4, "lock": 1},
+              "min_tasks": 16, "extra_tasks": 6, "min_ops": 1, "extra_ops": 2, "parent0": (9, 10)}
+
+
 def o_pct(prog, lines):
     P = oracles.parse_program(prog)
     parts = P["run"].split(":")
@@ -66,12 +71,23 @@ def o_pct(prog, lines):
 def extra(c, rng, tier, results):
     count = 150 if tier == "quick" else 3000
     lines = corpus_programs("C11") + gen.batch(rng.next(), PCT_PROFILE, count, "c11_", ("pct",))
+    # priorities must stay strict whatever the number of tasks (the scheduler's inline capacity is 16) and must change only
+    # at creations, yields and change points — not at a `park` that returns at once or any other operation
+    lines += gen.batch(rng.next(), MANY_TASKS, count // 6, "c11m_", ("pct",))
+    for prof in ("park", "park_mix", "kernel", "condvar", "chan"):
+        lines += gen.batch(rng.next(), prof, count // 3, f"c11{prof}_", ("pct",))
     pred = run_stream("c11_predict", lines, "predict")
     bad = []
     for n in pred["names"]:
         prog = pred["progs"][n]
         for what, sig in o_pct(prog, pred["impl"].get(n, [])):
             bad.append((what, {"kind": "program", "program": prog, "stream": "c11_predict"}, sig))
+        for what, sig in oracles.o_contract(prog, pred["impl"].get(n, [])):
+            if sig == "C08:yield-flag":
+                # PCT demotes the running task whenever the yielding flag is set: a flag nobody asked for is a priority
+                # change that is neither a creation, nor a yield, nor a change point
+                bad.append(("PCT was told `is_yielding` (and demotes the running task) at a decision that no yield request preceded: " + what,
+                            {"kind": "program", "program": prog, "stream": "c11_predict"}, "C11:demotion-without-cause"))
         for what, sig in oracles.o_bounds(prog, pred["impl"].get(n, [])):
             if sig == "C13:budget":
                 bad.append(("PCT did not run exactly the requested number of iterations: " + what,
